@@ -93,7 +93,9 @@ PROPS["C18"] = dict(
          "(4) repeated sessions with identical static keys must not produce identical first ciphertext. (stack) real PUSH->PULL over tcp and "
          "DEALER->ROUTER over ipc under CURVE and NOISE_XX: 300 x 1 KiB bursts (which the session coalesces into batches far beyond one 64 KiB "
          "record), mixed bursts with a 70 000-byte message, single messages of 65 000..200 000 bytes, 4-frame messages of 50 KB: every message "
-         "send() accepted must arrive exactly once, in order, byte-exact. distinct = (mech, direction, case).",
+         "send() accepted must arrive exactly once, in order, byte-exact; and a reader that stalls for 2 s with heartbeats (100 ms) on the reader, "
+         "the sender or both (small kernel buffers, HWM 10, so that sealed records wait in the egress buffer while PINGs/PONGs are sealed): once it "
+         "reads again everything accepted must arrive and the link must not have dropped. distinct = (mech, direction, case).",
     assumptions=["cryptographic strength itself is out of scope; only observable consequences are checked",
                  "a pure truncation is indistinguishable from a slow link at engine level, so only 'prefix delivered' is required there"],
     shards=lambda tier, seed: sharded("c18", 16, _n(tier, 300, 1800))
